@@ -26,6 +26,16 @@ def F(name, fuzztime="60s", workers=16):
             "thorough": {"shards": 1, "fuzztime": fuzztime, "workers": workers, "timeout": 900}}
 
 CHECKS = {
+    "C01": {
+        "pkg": "c01", "level": "exploration",
+        "manifest": {
+            "text": "generated histories of runs against one registered-key directory and one scripted forwarded agent; the harness observes every challenge and reply on the agent connection and recomputes itself whether proof of possession was given; handler lists with any accept / reject pattern",
+            "note": "unpredictability of the challenge cannot be tested; what is decided is length, freshness over the history and that a captured signature never authenticates again; at most one real handler per list",
+            "technique": "stateful property-based testing (rapid): scripted adversarial agent + independent verification of the challenge response + handler-order model",
+        },
+        "assumptions": ["the CA double and the steps after authentication are honest, so 'a handler authenticates' implies 'the run succeeds'"],
+        "subchecks": [R("TestC01Auth", 300, 2000, qs=2)],
+    },
     "C05": {
         "pkg": "c05", "level": "exploration",
         "manifest": {
